@@ -402,6 +402,18 @@ def link_creation_cases():
     return out
 
 
+def run_trace(module, path, expect):
+    """one trace-validation run; a run that TLC did not complete (resource trouble on a shared machine) is retried once"""
+    tr = None
+    for attempt in (1, 2):
+        tr = tlc.run(module, module, workers=WORKERS, env={"TRACE_FILE": str(path)}, timeout=2400, heap=HEAP)
+        if not tr.errors and tr.distinct == expect:
+            return tr
+    i = tr.stdout.find("Error")
+    machinery_failure(PID, f"trace validation failed twice (distinct={tr.distinct}, expected {expect}, errors={tr.errors[:5]}):\n"
+                      + (tr.stdout[max(0, i - 200):i + 2500] if i >= 0 else tr.stdout[-3000:]))
+
+
 # ------------------------------------------------------------------------------------- main
 def shape_tag(sh) -> str:
     return sh["mkind"] + ":" + "+".join(l["tgt"] + "<" + l["fn"] for l in sh["links"]) + (":req" if sh["req"] else "") + (":sub" if sh["sub"] else "")
@@ -502,11 +514,8 @@ def main(argv):
             f = tmp / f"trace{cidx}.json"
             f.write_text(json.dumps({"obs": [{"shape": c["shape"], "items": c["items"], "out": ob["out"], "dumped": ob["dumped"], "dump": ob["dump"], "re": ob["re"]}
                                              for c, ob, _o in part], "links": lc if cidx == 0 else []}))
-            tr = tlc.run("Trace_LinksParse", "Trace_LinksParse", workers=WORKERS, env={"TRACE_FILE": str(f)}, timeout=2400, heap=HEAP)
+            tr = run_trace("Trace_LinksParse", f, len(part) + (len(lc) if cidx == 0 else 0))
             rep.add_tlc(f"Trace_LinksParse[{cidx}]", tr)
-            expect = len(part) + (len(lc) if cidx == 0 else 0)
-            if tr.errors or tr.distinct != expect:
-                machinery_failure(PID, f"trace validation failed (distinct={tr.distinct}, expected {expect}):\n" + tr.stdout[-3000:])
             for p in tr.printed:
                 if isinstance(p, list) and p and p[0] == "R":
                     rejects.append((p[1], p[2] + (cidx * CH if p[1] == "parse" else 0), p[3]))
